@@ -198,12 +198,32 @@ func (w *World) Addr(id int) sdk.AccAddress {
 	return w.Princ[id-1]
 }
 
+// ID maps an address string as stored by the application (any spelling that decodes) to the
+// principal id.
 func (w *World) ID(bech string) int {
+	if a, err := sdk.AccAddressFromBech32(bech); err == nil {
+		bech = a.String() // canonical spelling
+	}
 	id, ok := w.ids[bech]
 	if !ok {
 		panic("unknown principal " + bech)
 	}
 	return id
+}
+
+// Spelling flags of an operation: which address-typed fields of the message are written in
+// upper case (bech32 allows all-lower and all-upper; both decode to the same bytes and signer).
+const (
+	UpSender = 1 << iota
+	UpValidator
+	UpDeputy
+)
+
+func spell(s string, upper bool) string {
+	if upper {
+		return strings.ToUpper(s)
+	}
+	return s
 }
 
 // SetParams goes through the real MsgUpdateParams handler (so Params.Validate applies).
@@ -408,6 +428,7 @@ type Op struct {
 	Val    int      // proof: validator principal
 	Proofs [][]byte // proof
 	Deputy int      // register
+	Up     int      // spelling flags (UpSender | UpValidator | UpDeputy)
 	Dt     time.Duration
 	// filled by Apply
 	Now          int64
@@ -460,6 +481,10 @@ func (w *World) Apply(op *Op, blockTime time.Time) {
 	op.Now = blockTime.UnixNano()
 	ctx := w.H.CtxAt(blockTime)
 	var err error
+	sender := ""
+	if op.Kind != OpEndBlock {
+		sender = spell(w.Addr(op.Sender).String(), op.Up&UpSender != 0)
+	}
 	switch op.Kind {
 	case OpPublish:
 		hashes := make([][]byte, op.N)
@@ -467,13 +492,13 @@ func (w *World) Apply(op *Op, blockTime time.Time) {
 			hashes[i] = w.Pool.HashAt(i)
 		}
 		err = apph.Tx(ctx, func(ctx sdk.Context) error {
-			_, e := w.Srv.PublishData(ctx, &datypes.MsgPublishData{Sender: w.Addr(op.Sender).String(), MetadataUri: URI(op.URI),
+			_, e := w.Srv.PublishData(ctx, &datypes.MsgPublishData{Sender: sender, MetadataUri: URI(op.URI),
 				ParityShardCount: op.Parity, ShardDoubleHashes: hashes, DataSourceInfo: "verif"})
 			return e
 		})
 	case OpInval:
 		err = apph.Tx(ctx, func(ctx sdk.Context) error {
-			_, e := w.Srv.SubmitInvalidity(ctx, &datypes.MsgSubmitInvalidity{Sender: w.Addr(op.Sender).String(), MetadataUri: URI(op.URI), Indices: op.Idx})
+			_, e := w.Srv.SubmitInvalidity(ctx, &datypes.MsgSubmitInvalidity{Sender: sender, MetadataUri: URI(op.URI), Indices: op.Idx})
 			return e
 		})
 	case OpProof:
@@ -493,18 +518,18 @@ func (w *World) Apply(op *Op, blockTime time.Time) {
 			op.VOK = append(op.VOK, vok)
 		}
 		err = apph.Tx(ctx, func(ctx sdk.Context) error {
-			_, e := w.Srv.SubmitValidityProof(ctx, &datypes.MsgSubmitValidityProof{Sender: w.Addr(op.Sender).String(),
-				ValidatorAddress: valAddr.String(), MetadataUri: URI(op.URI), Indices: op.Idx, Proofs: op.Proofs})
+			_, e := w.Srv.SubmitValidityProof(ctx, &datypes.MsgSubmitValidityProof{Sender: sender,
+				ValidatorAddress: spell(valAddr.String(), op.Up&UpValidator != 0), MetadataUri: URI(op.URI), Indices: op.Idx, Proofs: op.Proofs})
 			return e
 		})
 	case OpReg:
 		err = apph.Tx(ctx, func(ctx sdk.Context) error {
-			_, e := w.Srv.RegisterProofDeputy(ctx, &datypes.MsgRegisterProofDeputy{Sender: w.Addr(op.Sender).String(), DeputyAddress: w.Addr(op.Deputy).String()})
+			_, e := w.Srv.RegisterProofDeputy(ctx, &datypes.MsgRegisterProofDeputy{Sender: sender, DeputyAddress: spell(w.Addr(op.Deputy).String(), op.Up&UpDeputy != 0)})
 			return e
 		})
 	case OpUnreg:
 		err = apph.Tx(ctx, func(ctx sdk.Context) error {
-			_, e := w.Srv.UnregisterProofDeputy(ctx, &datypes.MsgUnregisterProofDeputy{Sender: w.Addr(op.Sender).String()})
+			_, e := w.Srv.UnregisterProofDeputy(ctx, &datypes.MsgUnregisterProofDeputy{Sender: sender})
 			return e
 		})
 	case OpEndBlock:
@@ -547,6 +572,9 @@ func (op Op) Coq() string {
 
 func (op Op) Info() map[string]any {
 	m := map[string]any{"kind": op.Kind.String(), "now_ns": op.Now, "result": op.Res}
+	if op.Up != 0 {
+		m["upper_case_fields"] = op.Up // 1 sender, 2 validator, 4 deputy
+	}
 	if op.ErrText != "" {
 		m["err"] = op.ErrText
 	}
